@@ -12,6 +12,7 @@ import (
 	"fmt"
 	"math/rand"
 	"os"
+	"regexp/syntax"
 	"sort"
 	"strings"
 	"time"
@@ -440,6 +441,7 @@ var classFinding = map[byte]string{'S': "F-C10-1", 'L': "F-C10-2", 'E': "F-C10-3
 const (
 	findLookup  = "F-C10-6"
 	findTagKeys = "F-C10-7"
+	findAlias   = "F-C10-8"
 )
 
 // ---- concretisation of the abstract alphabets ------------------------------------------------------
@@ -466,6 +468,17 @@ func newIxConc(rng *rand.Rand) *ixConc {
 	}
 	if rng.Intn(4) == 0 { // plain letters now and then
 		c.ch["x"], c.ch["y"], c.ch["z"] = "w", "e", "d"
+	}
+	if rng.Intn(6) == 0 { // a literal whose last character is a regex operator: /xy/ is written x\| or x\*
+		c.ch["y"] = []string{"|", "*"}[rng.Intn(2)]
+		for _, o := range []string{"x", "z"} {
+			if c.ch[o] == c.ch["y"] {
+				c.ch[o] = "w"
+			}
+		}
+		if c.ch["x"] == c.ch["z"] {
+			c.ch["z"] = "d"
+		}
 	}
 	sep := 1 + rng.Intn(2)
 	c.ch["s"] = string([]byte{byte(sep)})
@@ -844,6 +857,8 @@ func (r *ixReplay) search(st *ixStep) string {
 	}
 	eng := r.x.e.Eng
 	full := influxql.TimeRange{Min: time.Unix(0, influxql.MinTime).UTC(), Max: time.Unix(0, influxql.MaxTime).UTC()}
+	var hist []histQuery
+	leafIso := map[string][]uint64{}
 	for qi, q := range qs {
 		text, err := r.c.cond(q.P)
 		if err != nil {
@@ -914,10 +929,15 @@ func (r *ixReplay) search(st *ixStep) string {
 			return fmt.Sprintf("%s: SearchSeriesKeys lists %q, the ids selected are %q", where, keys, lst.keys)
 		}
 
-		// (3) SELECT path: MergeSetIndex.SearchSeriesWithOpts
-		gotSel, err := r.x.selectIDs(mst, text)
+		// (3) SELECT path: MergeSetIndex.SearchSeriesWithOpts, first with empty caches (nothing is pending, so
+		// dropping them is invisible to the specification); the history-dependent pass follows the batch
+		gotSel, err := r.isoSelect(mst, text)
 		if err != nil {
 			return where + ": SearchSeriesWithOpts: " + err.Error()
+		}
+		hist = append(hist, histQuery{mst: mst, text: text, where: where, iso: gotSel})
+		if err := r.isoLeaves(mst, text, leafIso); err != nil {
+			return where + ": SearchSeriesWithOpts (single leaf): " + err.Error()
 		}
 		r.res.Compared++
 		ok, dsel, why := explain(gotSel, q.DSel)
@@ -1007,6 +1027,222 @@ func (r *ixReplay) search(st *ixStep) string {
 				}
 			}
 		}
+	}
+	return r.historyPass(hist, leafIso)
+}
+
+// ---- the tag-filter result cache of the SELECT path (known finding F-C10-8) ---------------------------
+// Model: leaf results are cached under (measurement, tag key, VALUE AS REWRITTEN BY tagFilter.Init, negative,
+// regexp); InfluxRegrep replaces the text of a pure-literal expression by the unescaped literal, so /a\|/ and
+// /a|/ share an entry. Only non-empty results are served from the cache. The prediction of a query in
+// its batch is the set algebra over the isolated results of its leaves, with leaves served from the model
+// cache when an earlier leaf stored the same key.
+
+type histQuery struct {
+	mst, text, where string
+	iso              []uint64
+}
+
+func (r *ixReplay) isoSelect(mst, text string) ([]uint64, error) {
+	if err := r.x.e.Shard().GetIndexBuilder().ClearCache(); err != nil {
+		return nil, err
+	}
+	return r.x.selectIDs(mst, text)
+}
+
+func condLeaves(e influxql.Expr, out *[]*influxql.BinaryExpr) {
+	switch n := e.(type) {
+	case *influxql.ParenExpr:
+		condLeaves(n.Expr, out)
+	case *influxql.BinaryExpr:
+		if n.Op == influxql.AND || n.Op == influxql.OR {
+			condLeaves(n.LHS, out)
+			condLeaves(n.RHS, out)
+			return
+		}
+		*out = append(*out, n)
+	}
+}
+
+func (r *ixReplay) isoLeaves(mst, text string, leafIso map[string][]uint64) error {
+	e, err := selectCond(text)
+	if err != nil || e == nil {
+		return err
+	}
+	var leaves []*influxql.BinaryExpr
+	condLeaves(e, &leaves)
+	for _, l := range leaves {
+		k := mst + "\x00" + l.String()
+		if _, ok := leafIso[k]; ok {
+			continue
+		}
+		ids, err := r.isoSelect(mst, l.String())
+		if err != nil {
+			return err
+		}
+		leafIso[k] = ids
+	}
+	return nil
+}
+
+// the value a regexp filter is cached under: tagFilter.Init -> InfluxRegrep -> getRegexpPrefix
+func effectiveRegexValue(text string) string {
+	sre, err := syntax.Parse(text, syntax.Perl)
+	if err != nil {
+		return text
+	}
+	sre = sre.Simplify()
+	lit := func(l *syntax.Regexp) (string, bool) {
+		for l.Op == syntax.OpCapture {
+			l = l.Sub[0]
+		}
+		if l.Op == syntax.OpLiteral && l.Flags&syntax.FoldCase == 0 {
+			return string(l.Rune), true
+		}
+		return "", false
+	}
+	switch sre.Op {
+	case syntax.OpEmptyMatch, syntax.OpBeginText, syntax.OpEndText:
+		return ""
+	case syntax.OpConcat:
+		// simplifyRegexpExt: only an expression anchored at BOTH ends keeps a bare literal body
+		// (otherwise ".*" is appended / prepended and the text is left alone)
+		subs := sre.Sub
+		bo := subs[0].Op == syntax.OpBeginText
+		eo := subs[len(subs)-1].Op == syntax.OpEndText
+		for len(subs) > 0 && subs[0].Op == syntax.OpBeginText {
+			subs = subs[1:]
+		}
+		for len(subs) > 0 && subs[len(subs)-1].Op == syntax.OpEndText {
+			subs = subs[:len(subs)-1]
+		}
+		if len(subs) == 0 {
+			return ""
+		}
+		if bo && eo && len(subs) == 1 {
+			if v, ok := lit(subs[0]); ok {
+				return v
+			}
+		}
+		return text
+	}
+	if v, ok := lit(sre); ok {
+		return v
+	}
+	return text
+}
+
+func leafCacheKey(mst string, l *influxql.BinaryExpr) string {
+	ref, _ := l.LHS.(*influxql.VarRef)
+	k := ""
+	if ref != nil {
+		k = ref.Val
+	}
+	switch v := l.RHS.(type) {
+	case *influxql.StringLiteral:
+		return fmt.Sprintf("%s\x00%s\x00%s\x00%v\x000", mst, k, v.Val, l.Op != influxql.EQ)
+	case *influxql.RegexLiteral:
+		return fmt.Sprintf("%s\x00%s\x00%s\x00%v\x001", mst, k, effectiveRegexValue(v.Val.String()), l.Op != influxql.EQREGEX)
+	}
+	return mst + "\x00?" + l.String()
+}
+
+func setAnd(a, b []uint64) []uint64 {
+	m := map[uint64]bool{}
+	for _, x := range b {
+		m[x] = true
+	}
+	out := []uint64{}
+	for _, x := range a {
+		if m[x] {
+			out = append(out, x)
+		}
+	}
+	return out
+}
+
+func setOr(a, b []uint64) []uint64 {
+	m := map[uint64]bool{}
+	out := []uint64{}
+	for _, x := range append(append([]uint64{}, a...), b...) {
+		if !m[x] {
+			m[x] = true
+			out = append(out, x)
+		}
+	}
+	sort.Slice(out, func(i, j int) bool { return out[i] < out[j] })
+	return out
+}
+
+func modelEval(mst string, e influxql.Expr, leafIso, cache map[string][]uint64) ([]uint64, bool) {
+	switch n := e.(type) {
+	case *influxql.ParenExpr:
+		return modelEval(mst, n.Expr, leafIso, cache)
+	case *influxql.BinaryExpr:
+		if n.Op == influxql.AND || n.Op == influxql.OR {
+			a, ok1 := modelEval(mst, n.LHS, leafIso, cache)
+			b, ok2 := modelEval(mst, n.RHS, leafIso, cache)
+			if !ok1 || !ok2 {
+				return nil, false
+			}
+			if n.Op == influxql.AND {
+				return setAnd(a, b), true
+			}
+			return setOr(a, b), true
+		}
+		ck := leafCacheKey(mst, n)
+		if c, ok := cache[ck]; ok && len(c) > 0 {
+			return c, true
+		}
+		s, ok := leafIso[mst+"\x00"+n.String()]
+		if !ok {
+			return nil, false
+		}
+		if cache != nil && len(s) > 0 {
+			cache[ck] = s
+		}
+		return s, true
+	}
+	return nil, false
+}
+
+func (r *ixReplay) historyPass(hist []histQuery, leafIso map[string][]uint64) string {
+	if len(hist) == 0 {
+		return ""
+	}
+	if err := r.x.e.Shard().GetIndexBuilder().ClearCache(); err != nil {
+		return "ClearCache: " + err.Error()
+	}
+	cache := map[string][]uint64{}
+	for _, h := range hist {
+		got, err := r.x.selectIDs(h.mst, h.text)
+		if err != nil {
+			return h.where + ": SearchSeriesWithOpts: " + err.Error()
+		}
+		r.res.Compared++
+		e, err := selectCond(h.text)
+		if err != nil {
+			return h.where + ": " + err.Error()
+		}
+		if e == nil {
+			if !eqU64(got, h.iso) {
+				return fmt.Sprintf("%s: SELECT path without condition returns %q after other queries, %q before", h.where, r.names(got), r.names(h.iso))
+			}
+			continue
+		}
+		// sanity of the decomposition: with an empty cache the algebra over the leaves is the isolated result
+		if alone, ok := modelEval(h.mst, e, leafIso, map[string][]uint64{}); !ok || !eqU64(alone, h.iso) {
+			r.res.Infra = fmt.Sprintf("%s: leaf algebra %q differs from the isolated SELECT result %q", h.where, r.names(alone), r.names(h.iso))
+			return "infra"
+		}
+		want, _ := modelEval(h.mst, e, leafIso, cache)
+		if eqU64(got, want) {
+			if !eqU64(got, h.iso) {
+				r.known(findAlias, fmt.Sprintf("%s: SELECT path selects %q when it follows the other queries of its batch and %q on its own (a leaf is served from the tag-filter cache entry of a different expression with the same rewritten text)", h.where, r.names(got), r.names(h.iso)))
+			}
+			continue
+		}
+		return fmt.Sprintf("%s: SELECT path selects %q when it follows the other queries of its batch; on its own %q, cache-alias model %q", h.where, r.names(got), r.names(h.iso), r.names(want))
 	}
 	return ""
 }
